@@ -348,6 +348,20 @@ func BuildCorpus() []*CorpusFile {
 		}
 		add(fmt.Sprintf("ply_mesh_faceprops_%d", int(fm)), "plymesh", d, fields)
 	}
+	// mesh PLY files as other programs lay them out: columns in another order or
+	// only some of them, the vertices in two blocks with different layouts (every
+	// block a "standard" vertex element as far as the mesh reader is concerned), the
+	// faces first, two face blocks, a foreign element in between
+	for _, fm := range []fileformats.PLYFormat{fileformats.PLYFormatASCII, fileformats.PLYFormatBinaryLittle} {
+		for li, layout := range plyMeshLayouts {
+			d := plyMeshLayout(fm, layout)
+			fields := tokenFields(d[:asciiEnd(d)])
+			if fm == fileformats.PLYFormatASCII {
+				fields = tokenFields(d)
+			}
+			add(fmt.Sprintf("ply_mesh_layout%d_%d", li, int(fm)), "plymesh", d, fields)
+		}
+	}
 	for _, f := range []fileformats.PLYFormat{fileformats.PLYFormatASCII, fileformats.PLYFormatBinaryLittle, fileformats.PLYFormatBinaryBig} {
 		d, fields := genericPLY(f)
 		hdr := tokenFields(d[:asciiEnd(d)])
@@ -383,6 +397,87 @@ func BuildCorpus() []*CorpusFile {
 		add("csv_3", "csv", d, tokenFields(d))
 	}
 	return c
+}
+
+// plyBlock is one element of a mesh PLY layout: "vertex" with its columns in the
+// given order, "face", or a foreign element.
+type plyBlock struct {
+	Name string
+	Cols []string
+	Rows int
+}
+
+var plyMeshLayouts = [][]plyBlock{
+	{{"vertex", []string{"red", "green", "blue", "x", "y", "z"}, 4}, {"face", nil, 2}},
+	{{"vertex", []string{"x", "y", "z"}, 4}, {"face", nil, 2}},
+	{{"vertex", []string{"z", "blue", "x"}, 4}, {"face", nil, 2}},
+	{{"vertex", []string{"x", "y", "z"}, 2}, {"vertex", []string{"x", "y", "z", "red", "green", "blue"}, 2}, {"face", nil, 2}},
+	{{"vertex", []string{"x", "y", "z", "red", "green", "blue"}, 2}, {"vertex", []string{"red", "green", "blue", "x", "y", "z"}, 2}, {"face", nil, 2}},
+	{{"vertex", []string{"x", "y", "z", "red", "green", "blue"}, 3}, {"vertex", []string{"y"}, 1}, {"face", nil, 2}},
+	{{"face", nil, 2}, {"vertex", []string{"x", "y", "z", "red", "green", "blue"}, 4}},
+	{{"vertex", []string{"x", "y", "z", "red", "green", "blue"}, 4}, {"face", nil, 1}, {"edge", nil, 2}, {"face", nil, 1}},
+	{{"edge", nil, 1}, {"vertex", []string{"x", "y", "z", "red", "green", "blue"}, 2}, {"edge", nil, 1}, {"vertex", []string{"x", "y", "z", "red", "green", "blue"}, 2}, {"face", nil, 2}},
+}
+
+func plyMeshLayout(fm fileformats.PLYFormat, blocks []plyBlock) []byte {
+	f32 := func(v float32) fileformats.PLYValue { return fileformats.PLYValueFloat32{Value: v} }
+	u8 := func(v uint8) fileformats.PLYValue { return fileformats.PLYValueUint8{Value: v} }
+	i32 := func(v int32) fileformats.PLYValue { return fileformats.PLYValueInt32{Value: v} }
+	h := &fileformats.PLYHeader{Format: fm}
+	for _, b := range blocks {
+		e := &fileformats.PLYElement{Name: b.Name, Count: int64(b.Rows)}
+		switch b.Name {
+		case "vertex":
+			for _, c := range b.Cols {
+				var t fileformats.PLYPropertyType = fileformats.PLYPropertyTypeFloat
+				if len(c) > 1 {
+					t = fileformats.PLYPropertyTypeUchar
+				}
+				e.Properties = append(e.Properties, &fileformats.PLYProperty{Name: c, ElemType: t})
+			}
+		case "face":
+			e.Properties = []*fileformats.PLYProperty{{Name: "vertex_index", LenType: fileformats.PLYPropertyTypeUchar, ElemType: fileformats.PLYPropertyTypeInt}}
+		default:
+			e.Properties = []*fileformats.PLYProperty{{Name: "vertex1", ElemType: fileformats.PLYPropertyTypeInt}, {Name: "vertex2", ElemType: fileformats.PLYPropertyTypeInt}}
+		}
+		h.Elements = append(h.Elements, e)
+	}
+	var buf bytes.Buffer
+	w, err := fileformats.NewPLYWriter(&buf, h)
+	if err != nil {
+		panic(err)
+	}
+	nv, nf := 0, 0
+	for _, b := range blocks {
+		for i := 0; i < b.Rows; i++ {
+			var row []fileformats.PLYValue
+			switch b.Name {
+			case "vertex":
+				for _, c := range b.Cols {
+					switch c {
+					case "x":
+						row = append(row, f32(float32(nv&1)))
+					case "y":
+						row = append(row, f32(float32(nv>>1)))
+					case "z":
+						row = append(row, f32(0.5*float32(nv)))
+					default:
+						row = append(row, u8(uint8(10*nv+len(c))))
+					}
+				}
+				nv++
+			case "face":
+				row = []fileformats.PLYValue{fileformats.PLYValueList{Length: u8(3), Values: []fileformats.PLYValue{i32(0), i32(int32(1 + nf)), i32(int32(2 + nf))}}}
+				nf++
+			default:
+				row = []fileformats.PLYValue{i32(int32(i)), i32(int32(i + 1))}
+			}
+			if err := w.Write(row); err != nil {
+				panic(err)
+			}
+		}
+	}
+	return append([]byte(nil), buf.Bytes()...)
 }
 
 func sortStrings(s []string) {
